@@ -574,10 +574,14 @@ func c19b(c *Ctx) {
 		}
 		szLit := "+(0 < " + sizePhi + ")"
 		type exp struct{ field, value, class string }
+		// classes are about the store that counts: a store whose value a later store of the same
+		// call overwrites is effective only where the later one does not run (so "advance, then
+		// restart the columns after a line feed" and "after a line feed restart the columns and
+		// return, else advance" are the same table)
 		table := []exp{
 			{"lineNumber", "$0.lineNumber+1", "NL"}, {"prevCharNumber", "0", "NL"}, {"prevUtf8CharNumber", "0", "NL"}, {"charNumber", sizePhi, "NL"}, {"utf8CharNumber", "1", "NL"},
-			{"prevCharNumber", "$0.charNumber", "U"}, {"prevUtf8CharNumber", "$0.utf8CharNumber", "U"}, {"position", "$0.readPosition", "U"},
-			{"utf8CharNumber", "$0.utf8CharNumber+1", "SZ"},
+			{"prevCharNumber", "$0.charNumber", "NN"}, {"prevUtf8CharNumber", "$0.utf8CharNumber", "NN"}, {"position", "$0.readPosition", "U"},
+			{"utf8CharNumber", "$0.utf8CharNumber+1", "NNSZ"},
 		}
 		nStores := 0
 		for _, fld := range []string{"lineNumber", "charNumber", "utf8CharNumber", "prevCharNumber", "prevUtf8CharNumber", "position", "readPosition"} {
@@ -590,8 +594,11 @@ func c19b(c *Ctx) {
 						class = e.class
 					}
 				}
-				if class == "" && (fld == "charNumber" || fld == "readPosition") && strings.Contains(v, "$0."+fld) && strings.Contains(v, sizePhi) {
+				if class == "" && fld == "readPosition" && strings.Contains(v, "$0."+fld) && strings.Contains(v, sizePhi) {
 					class = "U"
+				}
+				if class == "" && fld == "charNumber" && strings.Contains(v, "$0."+fld) && strings.Contains(v, sizePhi) {
+					class = "NN"
 				}
 				key := fmt.Sprintf("readChar/exact/%s#%d", fld, i)
 				pos := c.W.Pos(st.Pos())
@@ -603,11 +610,19 @@ func c19b(c *Ctx) {
 				switch class {
 				case "NL":
 					want = dnfAndLit(want, nl)
-				case "SZ":
-					want = dnfAndLit(want, szLit)
+				case "NN":
+					want = dnfAndLit(want, negLit(nl))
+				case "NNSZ":
+					want = dnfAndLit(dnfAndLit(want, negLit(nl)), szLit)
 				}
 				d := pc.canonOf(pc.At(st.Block()))
-				c.Check(dnfEquiv(d, want), key, pos, fld+" = "+pretty(v)+" exactly "+map[string]string{"U": "on every call", "NL": "when the previous character was a line feed", "SZ": "when a character was read"}[class], "readChar sets "+fld+" = "+pretty(v)+" under "+d.String()+", expected exactly "+want.String())
+				var later []dnf
+				for _, st2 := range storesToField(fn, "lexer", "Lexer", fld) {
+					if st2 != st && canReach(st, st2) {
+						later = append(later, pc.canonOf(pc.At(st2.Block())))
+					}
+				}
+				c.Check(dnfEffEquiv(d, later, want), key, pos, fld+" = "+pretty(v)+" counts exactly "+map[string]string{"U": "on every call", "NL": "when the previous character was a line feed", "NN": "when the previous character was not a line feed", "NNSZ": "when a character was read and the previous one was not a line feed"}[class], "readChar sets "+fld+" = "+pretty(v)+" under "+d.String()+fmt.Sprintf(" (overwritten later under %d other conditions)", len(later))+", expected to be the value that counts exactly under "+want.String())
 			}
 		}
 		c.Check(nStores >= 10, "readChar/exact/stores", c.W.FuncPos(fn), "counter stores of readChar enumerated", fmt.Sprintf("expected at least 10 counter stores in readChar, found %d", nStores))
